@@ -229,6 +229,41 @@ def int_operand(name, cat):
 CAST_CATS = ('char', 'short', 'int', 'long', 'uchar', 'ushort', 'uint', 'ulong', 'float', 'double', 'ldouble')
 
 
+def _nonneg64(t):
+    """t, read as a signed 64-bit number, is >= 0 whatever the operand (a zero-extension from fewer than 64 bits)"""
+    t = canon(t)
+    return isinstance(t, tuple) and t[0] == 'zx' and len(t) > 3 and t[2] == 64 and t[1] < 64
+
+
+def feasible_state(s):
+    """False when the path condition of the final state s contains a sign test of a 64-bit value that is a zero-extension of a narrower
+    one, decided the way it cannot come out (a `test %rax,%rax; js` sequence run on a zero-extended _Bool never takes the negative branch)"""
+    for c, truth in s.cond:
+        c = canon(c)
+        if not (isinstance(c, tuple) and c[0] == 'cmp' and len(c) == 5 and c[2] == 64):
+            continue
+        zero = C(0)
+        if c[1] == 'lt_s' and c[4] == zero and _nonneg64(c[3]) and truth:
+            return False
+        if c[1] == 'ge_s' and c[4] == zero and _nonneg64(c[3]) and not truth:
+            return False
+        if c[1] == 'le_s' and c[3] == zero and _nonneg64(c[4]) and not truth:
+            return False
+        if c[1] == 'gt_s' and c[3] == zero and _nonneg64(c[4]) and truth:
+            return False
+    return True
+
+
+def prune_infeasible(pack):
+    """run_paths() result with the final states removed whose path condition feasible_state() refutes"""
+    out = []
+    for ctx, tr, finals, cats, it in pack:
+        if not isinstance(finals, Exception):
+            finals = [s for s in finals if feasible_state(s)]
+        out.append((ctx, tr, finals, cats, it))
+    return out
+
+
 def fp_source(name, cat):
     return ('r', name, 'f%d' % FP[cat])
 
